@@ -166,3 +166,24 @@ def run_rules(ctx, rules):
     """Run every rule of a module: RULES = {rule_id: fn(ctx)}."""
     for rid, fn in rules.items():
         guarded(ctx, rid, "<%s>" % rid, lambda fn=fn: fn(ctx))
+
+
+def loop_passes(body, entry, head, through):
+    """No path from `entry` (first block of a loop iteration) back to the loop `head` avoids
+    every block in `through` (paths that leave the function are not constrained)."""
+    through = set(through)
+    if entry in through:
+        return True
+    seen = {entry}
+    stack = [entry]
+    while stack:
+        x = stack.pop()
+        for nx in body.succ[x]:
+            if nx in through:
+                continue
+            if nx == head:
+                return False
+            if nx not in seen:
+                seen.add(nx)
+                stack.append(nx)
+    return True
